@@ -108,9 +108,18 @@ func NormNative(r Run) Trace {
 		if strings.HasPrefix(l, "panic: ") {
 			if t.Outcome == "" {
 				msg := strings.TrimPrefix(l, "panic: ")
-				// error values print as "main.E{...}"-free text; runtime errors may carry
-				// a " [recovered]" suffix on re-panic chains – first line decides.
 				t.Outcome = "panic:" + PanicClass(msg)
+				// a chain "panic: first [recovered]\n\tpanic: second": the program dies of the
+				// last one
+				all := splitLines(r.Stderr)
+				for i := range all {
+					if all[i] == l {
+						for j := i + 1; j < len(all) && strings.HasPrefix(all[j], "\tpanic: "); j++ {
+							t.Outcome = "panic:" + PanicClass(strings.TrimPrefix(all[j], "\tpanic: "))
+						}
+						break
+					}
+				}
 			}
 			break
 		}
